@@ -108,7 +108,7 @@ var c11OpTemplates = []string{
 	"sh = -1; println(a << sh)", "sh = -1; println(a >> sh)", "sh = -1; a <<= sh", "sh = -1; a >>= sh", "sh = -1; println(1 << sh)", "u = 64; println(a << u, a >> u)", "u = 1 << 40; println(a << u, a >> u)",
 	// cyclic values reaching the renderers and the comparison / hashing code
 	"cy := []interface{}{nil}; cy[0] = cy; println(cy)", "cy := []interface{}{nil}; cy[0] = cy; panic(cy)", "cm := map[string]interface{}{}; cm[\"a\"] = cm; println(cm)", "cm := map[string]interface{}{}; cm[\"a\"] = cm; panic(cm)",
-	"cp := &S{}; cp.P = cp; println(cp, *cp)", "cp := &S{}; cp.P = cp; panic(cp)", "cp := &S{}; cp.P = cp; panic(*cp)", "var ce interface{}; ce = &ce; println(ce)", "var ce interface{}; ce = &ce; panic(ce)", "ca := [1]interface{}{}; ca[0] = &ca; println(ca); panic(ca)",
+	"cp := &S{}; cp.P = cp; println(cp, *cp)", "cp := &S{}; cp.P = cp; panic(cp)", "cp := &S{}; cp.P = cp; panic(*cp)", "ca := [1]interface{}{}; ca[0] = &ca; println(ca); panic(ca)",
 	"type N struct{ v interface{} }; cn := &N{}; cn.v = cn; println(*cn == *cn); panic(*cn)", "type N struct{ v interface{} }; cn := &N{}; cn.v = cn; me := map[interface{}]int{}; me[*cn] = 1; println(len(me))", "cy := []interface{}{nil}; cy[0] = &cy; var e2 interface{} = cy[0]; println(e2 == e2)",
 "println(it.(*S).A)", "println(it.(S).A)", "var n interface{}; println(n.(int))", "var n I; n.(*S).Set(1)", "f2 := it.Get; println(f2())", "f2 := pnil.Get; println(f2())", "f2 := S.Get; println(f2(S{A: i}))", "f2 := (*S).Set; f2(pnil, 1)", "f2 := I.Get; println(f2(it))", "var n I; f2 := n.Get; println(f2())",
 }
@@ -300,6 +300,9 @@ func c11DrawGram(rt *rapid.T) c11Case {
 		} else {
 			c.Gas = c11Pick(rt, []int64{10_000_000, 30_000_000, 100_000_000, 300_000_000}, "gas")
 		}
+	case "ops", "flow":
+		// the prelude alone needs ~2.5M gas to preprocess
+		c.Gas = c11Pick(rt, []int64{10_000_000, 30_000_000, 100_000_000}, "gas")
 	default:
 		c.Gas = c11Pick(rt, []int64{3_000_000, 10_000_000, 30_000_000, 100_000_000}, "gas")
 	}
